@@ -24,6 +24,7 @@ from ..common import Check, MachineryError, SPEC, OUT
 from .. import tlc
 
 PID = "C18"
+REAL = {"b": "tb"}
 SPARE = ["s1", "s2", "s3", "s4"]          # directories between the sandbox box and the model's root: `..` escapes end here
 
 
@@ -53,8 +54,8 @@ class Sandbox:
         os.makedirs(self.l3)
         os.makedirs(self.arch)
         self._file(os.path.join(self.l3, "a"), "outside a\n")
-        os.makedirs(os.path.join(self.l3, "b"))
-        self._file(os.path.join(self.l3, "b", "a"), "outside b/a\n")
+        os.makedirs(os.path.join(self.l3, "tb"))
+        self._file(os.path.join(self.l3, "tb", "a"), "outside b/a\n")
         for s in ("p", "q"):
             os.makedirs(os.path.join(self.l3, s, "d"))
             self._file(os.path.join(self.l3, s, "a"), "source %s/a\n" % s)
@@ -73,7 +74,10 @@ class Sandbox:
             self.content[p[len(self.box) + 1:]] = text
 
     def render(self, segs):
-        """model name -> text; "" as first segment = absolute = the sandbox's model root (never a real system path)"""
+        """model name -> text; "" as first segment = absolute = the sandbox's model root (never a real system path);
+        the model's `b` is called `tb` on disk: next to the target `t` it is a sibling whose name has the target's
+        name as a prefix (string-prefix confinement checks without a separator accept ../tb)"""
+        segs = [REAL.get(x, x) for x in segs]
         if segs and segs[0] == "":
             return self.root + "/" + "/".join(segs[1:])
         return "/".join(segs)
@@ -366,7 +370,7 @@ def expected_tree(mode, case):
     for e in case["created"]:
         p = e["p"]
         if p[:3] == ["l2", "l3", "t"] and len(p) > 3:
-            exp[tuple(p[3:])] = "sym" if e["k"] == "sym" else "file" if e["k"] in ("file", "hard") else "dir"
+            exp[tuple(REAL.get(x, x) for x in p[3:])] = "sym" if e["k"] == "sym" else "file" if e["k"] in ("file", "hard") else "dir"
     if mode == "manifest":
         exp[("conf",)] = "dir"
         exp[("conf", "flowir_package.yaml")] = "file"
@@ -439,7 +443,7 @@ def execute(chk, mode, cases, sb, env, found, stagein=False):
 
 # =====================================================================================================================
 BASE = {"Mode": '"archive"', "Segs": '{"a", "b", "..", ""}', "MaxLen": "2", "Kinds": '{"file", "dir", "sym", "hard"}',
-        "LinkNameLen": "1", "LinkSegs": '{"a", "..", ""}', "LinkMaxLen": "2", "MaxMembers": "2", "Srcs": '{"p"}',
+        "LinkNameLen": "1", "LinkSegs": '{"a", "..", ""}', "LinkMaxLen": "2", "MaxMembers": "2", "Srcs": '{"p"}', "Pattern": '"any"',
         "Guard": '"resolve"', "Emit": "FALSE"}
 
 
@@ -461,6 +465,8 @@ def families(thorough):
     if thorough:
         fam += [("archive", "names3", dict(MaxMembers="2", MaxLen="3", Segs='{"a", "..", ""}', LinkNameLen="2", LinkSegs='{"a", ".."}')),
                 ("archive", "three", dict(MaxMembers="3", Segs='{"a", ".."}', LinkSegs='{"a", ".."}', LinkNameLen="1")),
+                ("archive", "dir-sym-file", dict(MaxMembers="3", MaxLen="3", Segs='{"a", "b", ".."}', Kinds='{"file", "dir", "sym"}',
+                                                 LinkSegs='{"a", ".."}', LinkNameLen="1", Pattern='"dir-sym-file"')),
                 ("stage", "three", dict(Mode='"stage"', MaxMembers="3"))]
     else:
         fam += [("archive", "three", dict(MaxMembers="3", Segs='{"a", ".."}', Kinds='{"file", "sym"}', LinkSegs='{"a", ".."}',
